@@ -170,7 +170,24 @@ func (w *World) RunScript(lines []string) (err error) {
 				}
 			}
 			line = strings.Join(toks, " ")
-			if strings.Contains(line, "=e0") || strings.Contains(line, ",e0") {
+			// an op that refers to "the last forged entry" when nothing was forged is skipped (only entry
+			// NAMES count: a payload value such as v=e0 is not a reference)
+			refsNothing := false
+			for _, t := range toks[1:] {
+				k, v, isKV := strings.Cut(t, "=")
+				if !isKV {
+					k, v = "", t
+				}
+				if k == "k" || k == "v" || k == "raw" || k == "recipe" || k == "route" {
+					continue
+				}
+				for _, n := range strings.Split(v, ",") {
+					if n == "e0" {
+						refsNothing = true
+					}
+				}
+			}
+			if refsNothing {
 				continue
 			}
 		}
